@@ -350,6 +350,37 @@ func runHistory(t ev.Failer, c *ev.Collector, h history) (labels map[string]bool
 	return labels
 }
 
+// reissueHooks re-issues some SETHOOK/SETCHAN commands of a history later on
+// with the same definition but another EX (added, changed or removed): "the
+// same hook, only its deadline moved" is a write like any other.
+func reissueHooks(t *rapid.T, cmds [][]string) [][]string {
+	out := append([][]string{}, cmds...)
+	for i, cmd := range cmds {
+		n := strings.ToLower(cmd[0])
+		if (n != "sethook" && n != "setchan") || rapid.IntRange(0, 2).Draw(t, "reissue?") != 0 {
+			continue
+		}
+		var again []string
+		for j := 0; j < len(cmd); j++ {
+			if strings.ToLower(cmd[j]) == "ex" && j+1 < len(cmd) {
+				j++ // drop EX n
+				continue
+			}
+			again = append(again, cmd[j])
+		}
+		if ex := rapid.SampledFrom([]string{"", "100000", "777777"}).Draw(t, "newex"); ex != "" {
+			k := 2 // after the name (and the endpoint of a hook)
+			if n == "sethook" {
+				k = 3
+			}
+			again = append(append(append([]string{}, again[:k]...), "EX", ex), again[k:]...)
+		}
+		at := rapid.IntRange(i+1, len(out)).Draw(t, "at")
+		out = append(out[:at], append([][]string{again}, out[at:]...)...)
+	}
+	return out
+}
+
 func TestC03_Restart(t *testing.T) {
 	c := ev.New("C03", "restart", "exploration")
 	t.Cleanup(c.Flush)
@@ -359,6 +390,7 @@ func TestC03_Restart(t *testing.T) {
 		ns := gen.DrawNames(rt)
 		g := rapid.Custom(func(t *rapid.T) []string { return histCmd(t, ns) })
 		h := history{Cmds: rapid.SliceOfN(g, 5, ev.Pick(40, 80)).Draw(rt, "cmds")}
+		h.Cmds = reissueHooks(rt, h.Cmds)
 		h.Conns = rapid.SliceOfN(rapid.IntRange(0, 3), len(h.Cmds), len(h.Cmds)).Draw(rt, "conns")
 		if rapid.IntRange(0, 3).Draw(rt, "ttl?") == 0 {
 			h.TTLs = rapid.IntRange(1, 3).Draw(rt, "ttls")
